@@ -467,7 +467,9 @@ class Check:
             failed |= {p_ for p_ in realpath_failed if p_ not in opened_ok}
             # readdir lines carry the directory's node path as the first field
             mid = {("" if x == "." else x) for x in mid}
-            hard = expected(failed | mutated)
+            # entries of a directory that vanished (or was replaced) after it had been opened may or may not have been
+            # read before the race: rows inside such a directory are allowed, not required (like a mid-stream error)
+            hard = expected(failed)
             soft = expected(failed | mutated | mid)
             got = observe(res)
             if shape == "count":
